@@ -23,3 +23,12 @@ package http
 //@ func (s *Server) setupEndpoints()
 //@   requires s != nil && s.Mux != nil
 //@   modifies heap
+
+// assumed: NewServer opens a listener (panics when the configured port is not available: local configuration, not a
+// remote input) and registers the endpoints (setupEndpoints, verified separately)
+//@ func NewServer(c) (s)
+//@   trusted
+//@   pure
+//@   ensures fresh(s) && s.Mux != nil
+//@ func (s *Server) Port() (p)
+//@   pure
